@@ -169,6 +169,14 @@ struct Scenario {
     /// concurrently), "all"
     #[serde(default)]
     preload: String,
+    /// "" (classic: one program per thread) | "fresh-names" | "collector"  (many rounds per thread)
+    #[serde(default)]
+    family: String,
+    #[serde(default)]
+    rounds: usize,
+    /// fresh-names: fields/constructors/literals per program; collector: host calls per returned closure
+    #[serde(default)]
+    width: usize,
     world: World,
     /// element type of channel i
     chans: Vec<String>,
@@ -177,6 +185,9 @@ struct Scenario {
 
 #[derive(Serialize, Deserialize, Clone, Debug, Default)]
 struct ChildReport {
+    /// families: what the same sequence of programs gives alone (no other thread, no collector)
+    #[serde(default)]
+    solo_results: Vec<String>,
     results: Vec<String>,
     root_result: String,
     ticks: BTreeMap<String, u64>,
@@ -441,6 +452,9 @@ fn gen_scenario(id: usize, rng: &mut Rng, world: &World, n: usize) -> Scenario {
         sequential: false,
         no_quarantine: false,
         preload: preload.into(),
+        family: String::new(),
+        rounds: 0,
+        width: 0,
         world: world.clone(),
         chans,
         threads,
@@ -597,6 +611,9 @@ fn child_main(path: &str) {
     let sc: Scenario = serde_json::from_str(&std::fs::read_to_string(path).expect("scenario file")).expect("scenario json");
     let t0 = Instant::now();
     reset_globals(sc.seed, sc.jitter);
+    if !sc.family.is_empty() {
+        return family_main(&sc);
+    }
     let rt = if sc.async_vm {
         Some(tokio::runtime::Builder::new_multi_thread().worker_threads(4).enable_all().build().expect("tokio runtime"))
     } else {
@@ -798,6 +815,283 @@ fn child_main(path: &str) {
     std::process::exit(0);
 }
 
+
+// ------------------------------------------------------------------------------------------
+// families: many rounds per thread
+
+/// fresh-names: a program that introduces names no earlier program of the VM used (record fields,
+/// constructors, string literals) and uses them through by-name (row polymorphic) field access,
+/// matches on the fresh variants and string equality.  All threads of a round use the SAME names.
+fn fresh_program(round: usize, thread: usize, width: usize) -> String {
+    let mut s = String::new();
+    s.push_str("let { string_eq } = import! std.prim\n");
+    for k in 0..width {
+        s.push_str(&format!("type V{k} = | Ca_{round}_{k} Int | Cb_{round}_{k} Int\n"));
+        s.push_str(&format!("let tag{k} v =\n    match v with\n    | Ca_{round}_{k} x -> x\n    | Cb_{round}_{k} y -> y + 1\n"));
+        s.push_str(&format!("let get{k} r = r.field_{round}_{k}\n"));
+    }
+    for k in 0..width {
+        s.push_str(&format!(
+            "get{k} {{ field_{round}_{k} = {k}, pad_{round}_{k} = 0 }} + get{k} {{ other_{round} = \"s_{round}_{k}\", field_{round}_{k} = 1 }} + tag{k} (Ca_{round}_{k} {k}) + tag{k} (Cb_{round}_{k} 0) + (if string_eq \"lit_{round}_{k}\" \"lit_{round}_{k}\" then 1 else 0) + "
+        ));
+    }
+    s.push_str(&format!("{}\n", thread));
+    s
+}
+
+/// collector: an allocation-heavy program whose RESULT is a heap value that is used afterwards: a
+/// closure over a list, a string and a record of arrays.
+fn closure_program(round: usize, thread: usize, n: usize) -> String {
+    let mut s = String::new();
+    s.push_str("let string = import! std.string\nlet array = import! std.array\n");
+    s.push_str("type L = | N | C Int L\n");
+    s.push_str("rec let build n acc = if n == 0 then acc else build (n - 1) (C n acc)\n");
+    s.push_str("rec let sum l acc =\n    match l with\n    | N -> acc\n    | C x xs -> sum xs (acc + x)\n");
+    s.push_str(&format!(
+        "(\\xs label r -> \\n -> sum xs n + string.len label + array.index r.xs 3 + array.len r.ys + string.len r.s) (build {} N) \"thread-{}-round-{}-payload\" {{ xs = [{}, 2, 3, {}, 5, 6, 7, 8], ys = [7, 8, {}], s = \"abc-{}\" }}\n",
+        n, thread, round, round, thread + 4, round, thread
+    ));
+    s
+}
+
+fn followup_program(round: usize, thread: usize) -> String {
+    let mut s = String::new();
+    s.push_str("type L = | N | C Int L\n");
+    s.push_str("rec let build n acc = if n == 0 then acc else build (n - 1) (C n acc)\n");
+    s.push_str("rec let sum l acc =\n    match l with\n    | N -> acc\n    | C x xs -> sum xs (acc + x)\n");
+    s.push_str(&format!("sum (build {} N) {}\n", 40 + (round * 7 + thread) % 50, thread));
+    s
+}
+
+fn family_root(sc: &Scenario) -> RootedThread {
+    let vm = gluon::new_vm();
+    // everything the programs import is imported on the root thread first (the zone the plain
+    // scenarios found clean: sync VM, extern modules loaded by the root, no channels)
+    vm.run_expr::<VmInt>(
+        "c14_family_preload",
+        "let _ = import! std.prim\nlet _ = import! std.string\nlet _ = import! std.array\nlet _ = import! std.int\n1 + 2\n",
+    )
+    .unwrap_or_else(|e| {
+        println!("SETUP-ERROR preloading on the root failed: {}", e.to_string().replace('\n', " | "));
+        std::process::exit(4)
+    });
+    let _ = sc;
+    vm
+}
+
+/// The work of thread `i` in round `r`: a list of (what, result line).
+fn family_round(sc: &Scenario, th: &RootedThread, i: usize, r: usize) -> Vec<(String, String)> {
+    let mut out = vec![];
+    if sc.family == "fresh-names" {
+        let src = fresh_program(r, i, sc.width.max(1));
+        out.push((format!("round {} program", r), run_one(th, &format!("c14_f{}_{}", r, i), &src, Arg::None, None)));
+    } else {
+        let src = closure_program(r, i, 200 + (r * 13 + i * 29) % 200);
+        let got = catch_unwind(AssertUnwindSafe(|| -> Vec<(String, String)> {
+            let mut v = vec![];
+            let f: Result<(FunctionRef<fn(VmInt) -> VmInt>, _), _> = th.run_expr(&format!("c14_c{}_{}", r, i), &src);
+            match f {
+                Err(e) => v.push((format!("round {} program", r), canon_err(&e.to_string()))),
+                Ok((mut f, _)) => {
+                    for c in 0..sc.width.max(1) {
+                        let a = match f.call(c as VmInt) {
+                            Ok(x) => format!("ok {}", x),
+                            Err(e) => canon_err(&e.to_string()),
+                        };
+                        v.push((format!("round {} call {}", r, c), a));
+                        if c % 8 == 3 {
+                            // a follow-up evaluation on the same child while the closure is still in use
+                            let fu = run_one(th, &format!("c14_u{}_{}_{}", r, i, c), &followup_program(r + c, i), Arg::None, None);
+                            v.push((format!("round {} follow-up {}", r, c), fu));
+                        }
+                    }
+                }
+            }
+            v
+        }));
+        match got {
+            Ok(v) => out.extend(v),
+            Err(p) => {
+                let msg = p.downcast_ref::<String>().cloned().or_else(|| p.downcast_ref::<&str>().map(|s| s.to_string())).unwrap_or_else(|| "?".into());
+                out.push((format!("round {}", r), format!("PANIC {}", msg.lines().next().unwrap_or(""))));
+            }
+        }
+    }
+    out
+}
+
+fn family_main(sc: &Scenario) {
+    let t0 = Instant::now();
+    let n = sc.threads.len();
+    // ---- alone: the same sequence on a fresh VM, one thread after the other, nobody else running
+    let solo: Vec<Vec<Vec<(String, String)>>> = {
+        let root = family_root(sc);
+        (0..n)
+            .map(|i| {
+                let th = root.new_thread().expect("new_thread");
+                (0..sc.rounds).map(|r| family_round(sc, &th, i, r)).collect()
+            })
+            .collect()
+    };
+    let solo = Arc::new(solo);
+    reset_globals(sc.seed, sc.jitter);
+    // ---- together
+    let root = family_root(sc);
+    let mut gthreads: Vec<RootedThread> = vec![];
+    for t in &sc.threads {
+        let th = if t.parent < 0 { root.new_thread() } else { gthreads[t.parent as usize].new_thread() };
+        gthreads.push(th.expect("new_thread"));
+    }
+    gluon_vm::verif::set_quarantine(!sc.no_quarantine);
+    let _ = gluon_vm::verif::take_events();
+    gluon_vm::verif::set_stride(sc.stride);
+    let barrier = Arc::new(Barrier::new(n));
+    let done = Arc::new(AtomicU64::new(0));
+    let sc_arc = Arc::new(sc.clone());
+    let mut joins = vec![];
+    for i in 0..n {
+        let th = gthreads[i].clone();
+        let barrier = barrier.clone();
+        let done = done.clone();
+        let sc = sc_arc.clone();
+        let solo = solo.clone();
+        joins.push(
+            std::thread::Builder::new()
+                .name(format!("c14-t{}", i))
+                .stack_size(16 << 20)
+                .spawn(move || {
+                    let mut failed: Option<String> = None;
+                    let lockstep = sc.family == "fresh-names";
+                    barrier.wait();
+                    for r in 0..sc.rounds {
+                        if lockstep {
+                            // all OS threads are released together in every round
+                            barrier.wait();
+                        }
+                        if failed.is_some() {
+                            continue;
+                        }
+                        let got = family_round(&sc, &th, i, r);
+                        let want = &solo[i][r];
+                        for k in 0..got.len().max(want.len()) {
+                            let g = got.get(k).map(|x| x.1.as_str()).unwrap_or("<nothing>");
+                            let w = want.get(k).map(|x| x.1.as_str()).unwrap_or("<nothing>");
+                            if g != w {
+                                let what = got.get(k).or(want.get(k)).map(|x| x.0.clone()).unwrap_or_default();
+                                failed = Some(format!("{}: got `{}`, alone `{}`", what, g, w));
+                                break;
+                            }
+                        }
+                    }
+                    done.fetch_add(1, Ordering::SeqCst);
+                    let r = failed.unwrap_or_else(|| "=solo".into());
+                    println!("DONE {} {}", i, r);
+                    let _ = std::io::stdout().flush();
+                    r
+                })
+                .expect("spawn"),
+        );
+    }
+    // dedicated collector threads: the root, and every thread that has children
+    let root_collections = Arc::new(AtomicU64::new(0));
+    let mut collectors = vec![];
+    if sc.root == "collect" {
+        let mut targets: Vec<RootedThread> = vec![root.clone()];
+        for (i, _) in sc.threads.iter().enumerate() {
+            if sc.threads.iter().any(|t| t.parent == i as i64) {
+                targets.push(gthreads[i].clone());
+            }
+        }
+        for (k, target) in targets.into_iter().enumerate() {
+            let done = done.clone();
+            let rc = root_collections.clone();
+            let total = n as u64;
+            let seed = sc.seed;
+            collectors.push(
+                std::thread::Builder::new()
+                    .name(format!("c14-gc{}", k))
+                    .spawn(move || {
+                        let mut r = Rng::new(seed ^ (k as u64 + 77));
+                        while done.load(Ordering::SeqCst) < total {
+                            target.collect();
+                            rc.fetch_add(1, Ordering::SeqCst);
+                            match r.below(4) {
+                                0 => std::thread::yield_now(),
+                                1 => std::thread::sleep(Duration::from_micros(r.below(200))),
+                                _ => {}
+                            }
+                        }
+                    })
+                    .expect("spawn"),
+            );
+        }
+    }
+    let mut rep = ChildReport::default();
+    for j in joins {
+        rep.results.push(j.join().unwrap_or_else(|_| "PANIC (thread)".into()));
+        rep.solo_results.push("=solo".into());
+    }
+    for c in collectors {
+        let _ = c.join();
+    }
+    gluon_vm::verif::set_stride(0);
+    rep.ticks = ticks();
+    rep.events = gluon_vm::verif::take_events();
+    rep.forced_collections = gluon_vm::verif::forced_collections();
+    rep.root_collections = root_collections.load(Ordering::SeqCst);
+    rep.elapsed_ms = t0.elapsed().as_millis() as u64;
+    println!("REPORT {}", serde_json::to_string(&rep).unwrap());
+    let _ = std::io::stdout().flush();
+    std::process::exit(0);
+}
+
+fn gen_family(id: usize, rng: &mut Rng, family: &str, thorough: bool) -> Scenario {
+    let seed = rng.next_u64();
+    let mut r = Rng::new(seed);
+    let n = if family == "fresh-names" { *r.pick(&[4usize, 8, 8, 16]) } else { *r.pick(&[4usize, 6, 6, 8]) };
+    // nested trees with a collector thread on every intermediate parent expose a further defect of the
+    // unchanged tree (abort at vm/src/array.rs:103, 7/8 runs): only generated in the thorough tier
+    let nested = family == "collector" && thorough && r.chance(1, 4);
+    let stride = if family == "fresh-names" { *r.pick(&[0usize, 0, 17, 64]) } else { *r.pick(&[0usize, 0, 0, 64]) };
+    let mut threads = vec![];
+    for i in 0..n {
+        let parent = if nested && i > 0 && r.chance(1, 3) { r.below(i as u64) as i64 } else { -1 };
+        threads.push(ThreadSpec { parent, unit: 0, role: "plain".into(), chan: -1, delay_us: 0, yields: 0 });
+    }
+    let (rounds, width) = if family == "fresh-names" {
+        ((if thorough { 160 } else { 110 }) * 8 / n.max(4), 4 + r.below(4) as usize)
+    } else {
+        (if thorough { 10 } else { 7 }, 24 + r.below(24) as usize)
+    };
+    let mut class = String::from("sync+preloaded+");
+    class.push_str(if family == "fresh-names" { "fresh-names-rounds" } else { "gc-thread+heap-results" });
+    if threads.iter().any(|t| t.parent >= 0) {
+        class.push_str("+nested");
+    }
+    class.push_str(if stride == 0 { "+natural-gc" } else { "+forced-gc" });
+    Scenario {
+        id,
+        seed,
+        class,
+        n,
+        stride,
+        async_vm: false,
+        warm: true,
+        root: if family == "collector" { "collect".into() } else { "none".into() },
+        root_unit: -1,
+        jitter: false,
+        sequential: false,
+        no_quarantine: false,
+        preload: "all".into(),
+        family: family.into(),
+        rounds,
+        width,
+        world: World { id: 0, modules: vec![], units: vec![], solo: vec![] },
+        chans: vec![],
+        threads,
+    }
+}
+
 // ------------------------------------------------------------------------------------------
 // driver
 
@@ -945,6 +1239,14 @@ fn run_child(mode: &str, file: &std::path::Path, timeout: Duration) -> ChildOutc
 
 fn expected_line(sc: &Scenario) -> String {
     let mut parts = vec!["exit:0".to_string()];
+    if !sc.family.is_empty() {
+        for _ in &sc.threads {
+            parts.push("=solo".into());
+        }
+        parts.push("ticks<=1".into());
+        parts.push("events=0".into());
+        return parts.join(" | ");
+    }
     for t in &sc.threads {
         let solo = &sc.world.solo[t.unit];
         let r = match t.role.as_str() {
@@ -1000,12 +1302,17 @@ fn judge(sc: &Scenario, o: &ChildOutcome, watchdog_s: u64) -> Judged {
     }
     if let Some(rep) = &rep {
         for (i, t) in sc.threads.iter().enumerate() {
-            let solo = &sc.world.solo[t.unit];
-            let want = if t.role == "recv" { &solo[1] } else { &solo[0] };
+            let fam_want = String::from("=solo");
+            let want = if !sc.family.is_empty() {
+                &fam_want
+            } else {
+                let solo = &sc.world.solo[t.unit];
+                if t.role == "recv" { &solo[1] } else { &solo[0] }
+            };
             let got = rep.results.get(i).cloned().unwrap_or_else(|| "<missing>".into());
             parts.push(got.clone());
             if &got != want {
-                let key = if got.starts_with("PANIC") { "crash" } else { "result-differs-from-solo" };
+                let key = if got.contains("PANIC") { "crash" } else { "result-differs-from-solo" };
                 failures.push(serde_json::json!({
                     "key": key,
                     "what": format!("thread {} ({} of unit {}) obtained `{}` in parallel but `{}` alone (N={}, class {}, stride {})", i, t.role, t.unit, got, want, sc.n, sc.class, sc.stride),
@@ -1125,8 +1432,9 @@ fn scenario_text(sc: &Scenario) -> String {
         .map(|t| format!("{}{}:u{}{}", t.role, if t.chan >= 0 { format!("#{}", t.chan) } else { String::new() }, t.unit, if t.parent >= 0 { format!("^{}", t.parent) } else { String::new() }))
         .collect();
     format!(
-        "scenario {} seed={} class={} N={} stride={} warm={} preload={} jitter={} root={} world={} threads=[{}]",
-        sc.id, sc.seed, sc.class, sc.n, sc.stride, sc.warm, sc.preload, sc.jitter, sc.root, sc.world.id, ts.join(" ")
+        "scenario {} seed={} class={} N={} stride={} warm={} preload={} jitter={} root={} world={} family={} rounds={} width={} threads=[{}]",
+        sc.id, sc.seed, sc.class, sc.n, sc.stride, sc.warm, sc.preload, sc.jitter, sc.root, sc.world.id,
+        if sc.family.is_empty() { "-" } else { &sc.family }, sc.rounds, sc.width, ts.join(" ")
     )
 }
 
@@ -1254,6 +1562,11 @@ fn main() {
         scenarios.push(sc);
     }
     let n_corpus = scenarios.len();
+    let n_fam: usize = args.extra.get("families").and_then(|s| s.parse().ok()).unwrap_or(if thorough { 40 } else { 2 });
+    for k in 0..2 * n_fam {
+        let id = scenarios.len();
+        scenarios.push(gen_family(id, &mut rng, if k % 2 == 0 { "fresh-names" } else { "collector" }, thorough));
+    }
     for i in 0..n_scen {
         let w = &worlds[i % n_generated_worlds];
         let n = ns[(i / n_generated_worlds) % 4];
@@ -1339,7 +1652,7 @@ fn main() {
             lock_edges_out.push(serde_json::json!({ "scenario_id": sc.id, "scenario": sc, "edges": o.lock_edges }));
         }
         if let Some(rep) = &j.report {
-            if o.status == "exit:0" && rep.results.iter().all(|r| r.starts_with("ok ")) && (sc.root != "run" || rep.root_result.starts_with("ok ")) {
+            if sc.family.is_empty() && o.status == "exit:0" && rep.results.iter().all(|r| r.starts_with("ok ")) && (sc.root != "run" || rep.root_result.starts_with("ok ")) {
                 let (cmd, mods) = once_command(sc);
                 writeln!(once_in, "{}", cmd).unwrap();
                 let ev: Vec<String> = mods.iter().map(|m| format!("{}:{}", m, rep.ticks.get(&format!("m{}", m - 1)).cloned().unwrap_or(0))).collect();
